@@ -48,7 +48,8 @@ Definition slice_list (s : slice_args) : list (option Z * option Z) :=
 Inductive case :=
 | CUnary (k : list bool) (sl : slice_args) (idx : list Z) (sidx : list Z) (scales : list Z)
 | CBinary (k : list bool) (others : list (list bool))
-| CJoin (k : list bool) (coordss : list (list (Z * Z))).
+| CJoin (k : list bool) (coordss : list (list (Z * Z)))
+| CSeqMap (k : list bool) (spans : list (Z * Z)).   (* make_seq_feature_map: the non-lost alignment spans *)
 
 Definition run_unary (v : variant) (k : list bool) (sl : slice_args) (idx sidx scales : list Z) : val :=
   let m := from_mask k in
@@ -88,6 +89,9 @@ Definition run_case_v (v : variant) (c : case) : val :=
   | CBinary k others => let m1 := from_mask k in VL (map (run_pair v m1) others)
   | CJoin k coordss =>
       let m := from_mask k in VL (map (fun cs => vres vstate (joined_segments m cs)) coordss)
+  | CSeqMap k spans =>
+      let m := from_mask k in
+      VL (map (fun se => vres vpairs (make_seq_coords m [se])) spans ++ [VZ (parent_length m)])
   end.
 
 Definition run_case : case -> val := run_case_v pinned.
